@@ -454,14 +454,10 @@ theorem offaxis_polar_dx (sqrt : K → K) (c k r cost sint s φ : K) (hcs : cost
   simp only [e]
   simp only [phiSq] at hφ
   refine ⟨trivial, ?_, ?_⟩
-  · simp only [fx, fy]
-    field_simp
-    first
+  · simp only [fx, fy] <;> field_simp <;> first
       | linear_combination (c * (r + s * cost)) * hφ - (c * r * (1 + φ) ^ 2) * hcs
       | ring1
-  · simp only [fx, fy]
-    field_simp
-    first
+  · simp only [fx, fy] <;> field_simp <;> first
       | linear_combination (-(c * r * s * sint)) * hφ
       | ring1
 
@@ -487,14 +483,10 @@ theorem offaxis_polar_dy (sqrt : K → K) (c k r cost sint s φ : K) (hcs : cost
   simp only [e]
   simp only [phiSq] at hφ
   refine ⟨trivial, ?_, ?_⟩
-  · simp only [fx, fy]
-    field_simp
-    first
+  · simp only [fx, fy] <;> field_simp <;> first
       | linear_combination (c * (r + s * sint)) * hφ - (c * r * (1 + φ) ^ 2) * hcs
       | ring1
-  · simp only [fx, fy]
-    field_simp
-    first
+  · simp only [fx, fy] <;> field_simp <;> first
       | linear_combination (c * r * s * cost) * hφ
       | ring1
 
